@@ -265,10 +265,11 @@ package core
 // Abstraction: what read returns depends on the metadata object and file name.
 // Ghost events: rbad[m] counts failed reads of metadata m; cbad[f] counts chunk
 // output validations of fork f that failed.
-//@ func core.Metadata.read property C06
+//@ func core.Metadata.read property C06 C01
 //@   trusted
 //@   modifies mapof(self.readCache), held(self.mutex)
 //@   effect rbad self := ghost(rbad)[self] + (isnil(result.1) ? 0 : 1)
+//@   effect mdreads self
 
 // Ghost events: vcount[f] counts output validations of fork f, vok[f] is the last verdict.
 //@ func core.Fork.verifyOutput property C06
@@ -278,10 +279,10 @@ package core
 //@ func core.Chunk.verifyOutput property C06
 //@   effect cbad self.fork := ghost(cbad)[self.fork] + (result ? 0 : 1)
 //@   ensures ghost(runs) == old(ghost(runs)) && ghost(completes) == old(ghost(completes))
-//@ func core.Fork.Split property C03
+//@ func core.Fork.Split property C03 C01
 //@   pure
 //@   opt deterministic on
-//@ func core.Fork.OutParams property C06
+//@ func core.Fork.OutParams property C06 C01
 //@   pure
 //@   opt deterministic on
 
@@ -310,7 +311,7 @@ package core
 //@   loop 1 invariant ghost(runs) == old(ghost(runs)) && state == "split_complete"
 //@   loop 2 invariant state == "split_complete"
 
-//@ func core.Fork.doJoin property C03 C02 C06
+//@ func core.Fork.doJoin property C03 C02 C06 C01
 //@   requires @phase state == "chunks_complete"
 //@   assume forall j :: 0 <= j && j < len(self.chunks) ==> self.chunks[j] != nil && self.chunks[j].fork == self
 //@   ensures @values result == "failed" || result == "chunks_complete" || result == "join_complete"
@@ -320,10 +321,14 @@ package core
 //@   ensures @flag ghost(runs) != old(ghost(runs)) ==> self.join_has_run
 //@   ensures @failed result != "chunks_complete" ==> ghost(runs) == old(ghost(runs))
 //@   ensures @badchunk ghost(cbad)[self] != old(ghost(cbad)[self]) ==> result == "failed"
+//@   ensures @chunkouts fn(core.Fork.Split, self) && len(self.chunks) > 0 && fn(core.Fork.OutParams, self) != nil && len(fn(core.Fork.OutParams, self).List) > 0 ==> forall j :: 0 <= j && j < len(self.chunks) ==> ghost(mdreads)[self.chunks[j].metadata] >= old(ghost(mdreads)[self.chunks[j].metadata]) + 1
 //@   loop 1 invariant ghost(runs) == old(ghost(runs)) && self.join_has_run == old(self.join_has_run) && state == "chunks_complete"
 //@   loop 2 invariant ghost(runs) == old(ghost(runs)) && self.join_has_run == old(self.join_has_run) && state == "chunks_complete"
 //@   loop 2 invariant ok ==> ghost(cbad)[self] == old(ghost(cbad)[self])
-//@   loop 2 invariant 0 <= iter
+//@   loop 2 invariant 0 <= iter && iter <= len(self.chunks)
+//@   loop 2 invariant forall m *core.Metadata :: ghost(mdreads)[m] >= old(ghost(mdreads)[m])
+//@   loop 2 invariant forall j :: 0 <= j && j < iter ==> ghost(mdreads)[self.chunks[j].metadata] >= old(ghost(mdreads)[self.chunks[j].metadata]) + 1
+//@   loop 2 invariant forall j :: 0 <= j && j < len(self.chunks) ==> self.chunks[j] == old(self.chunks[j]) && self.chunks[j].metadata == old(self.chunks[j].metadata)
 //@   loop 3 invariant ghost(runs) == old(ghost(runs)) && self.join_has_run == old(self.join_has_run) && state == "chunks_complete"
 
 // _complete is written for the fork only after its outputs validated.
